@@ -17,6 +17,14 @@
    [graph_table] / [uexp_events] of Model/CallbacksSched.v (what Props/C10.v
    [exactly_once_paired_units] states for every schedule).
 
+   CaseRuns: a graph compiled with a checkpoint store and called with a checkpoint id, in which
+   some node executions ask for an interrupt (compose.InterruptAndRerun, also through a nested
+   graph); an interrupted run is followed by a run with the same checkpoint id until a run is
+   not interrupted.  Observed: per run what CaseGraph observes.  The model gives the sequence of
+   graphs these runs execute ([run_seq] of Model/CallbacksResume.v: the nodes that completed are
+   not executed again, the interrupted ones are); the number of runs must agree and every run is
+   compared like a CaseGraph.
+
    CaseStream: one stream payload handed to n-1 handlers and the flow through the public
    callbacks.OnStartWithStreamInput / OnEndWithStreamOutput; afterwards the harness performs a
    script of recv / close actions on the n readers, in the given global order.  Observed: what
@@ -24,7 +32,8 @@
 
    The model is evaluated at the heap level (slices, Go append) with a doubling growth
    policy; Proofs/Callbacks.v shows the result does not depend on the policy. *)
-From Eino Require Import Base.Util Base.GoSlice Model.Callbacks Model.CallbacksStream Model.CallbacksSched.
+From Eino Require Import Base.Util Base.GoSlice Model.Callbacks Model.CallbacksStream Model.CallbacksSched
+  Model.CallbacksResume.
 
 Definition ev4 (e : event) : N * N * N * N :=
   match e with Ev u x t i => (u, x, timing_code t, i) end.
@@ -75,6 +84,9 @@ Inductive ccase : Type :=
 | CaseGraph (globals : list handler) (needs : list (handler * list N)) (opts : list copt)
             (is_stream : bool) (g : ukey) (ginf : info) (stages : list (list gnode))
             (obs : list (N * list (N * N)))
+| CaseRuns (globals : list handler) (needs : list (handler * list N)) (opts : list copt)
+           (is_stream : bool) (g : ukey) (ginf : info) (plan : list (list rnode))
+           (obs : list (list (N * list (N * N))))
 | CaseStream (globals locals : list handler) (t : timing) (order : list handler)
              (src : list N) (acts : list cact) (obs : list (list N)) (closed : option bool).
     (* order = the handlers in the order in which they were handed their copy (copy k goes
@@ -99,6 +111,22 @@ Definition final_ok (st : state) (final : list (ukey * list handler)) : bool :=
              | None => false
              end) final.
 
+(* one run of a graph against what was observed: the canonical order of the heap-level model and
+   the closed form *)
+Definition graph_run_ok (w : world) (is_stream : bool) (g : ukey) (ginf : info) (opts : list copt)
+           (stages : list (list gnode)) (obs : list (N * list (N * N))) : bool :=
+  let st := run_script true w (graph_ops is_stream g ginf opts stages) in
+  negb (st_bad st) && list_eqb group_eqb (by_info (st_log st)) obs
+  && list_eqb group_eqb (table_events w is_stream g ginf opts stages) obs.
+
+Fixpoint runs_ok (w : world) (is_stream : bool) (g : ukey) (ginf : info)
+         (runs : list (list copt * list (list gnode))) (obs : list (list (N * list (N * N)))) : bool :=
+  match runs, obs with
+  | [], [] => true
+  | r :: runs', o :: obs' => graph_run_ok w is_stream g ginf (fst r) (snd r) o && runs_ok w is_stream g ginf runs' obs'
+  | _, _ => false
+  end.
+
 Definition bad (c : ccase) : bool :=
   match c with
   | CaseScript globals needs ops obs final =>
@@ -108,6 +136,9 @@ Definition bad (c : ccase) : bool :=
       let st := run_script true (mk_world globals needs) (graph_ops is_stream g ginf opts stages) in
       negb (negb (st_bad st) && list_eqb group_eqb (by_info (st_log st)) obs
             && list_eqb group_eqb (table_events (mk_world globals needs) is_stream g ginf opts stages) obs)
+  | CaseRuns globals needs opts is_stream g ginf plan obs =>
+      negb (runs_ok (mk_world globals needs) is_stream g ginf
+                    (run_seq (S (total_intr plan)) opts plan) obs)
   | CaseStream globals locals t order src acts obs closed =>
       (* On: the selected handlers in invocation order; OnWithStreamHandle: one copy each, one more for the flow *)
       let w := mk_world globals [] in
@@ -129,3 +160,7 @@ Definition model_script (globals : list handler) (needs : list (handler * list N
 Definition model_graph (globals : list handler) (needs : list (handler * list N)) (opts : list copt)
            (is_stream : bool) (g : ukey) (ginf : info) (stages : list (list gnode)) :=
   by_info (st_log (run_script true (mk_world globals needs) (graph_ops is_stream g ginf opts stages))).
+Definition model_runs (globals : list handler) (needs : list (handler * list N)) (opts : list copt)
+           (is_stream : bool) (g : ukey) (ginf : info) (plan : list (list rnode)) :=
+  map (fun r => by_info (st_log (run_script true (mk_world globals needs) (graph_ops is_stream g ginf (fst r) (snd r)))))
+      (run_seq (S (total_intr plan)) opts plan).
